@@ -120,9 +120,21 @@ def r14b(R):
     A = R.A
     sw = A.func(MACHINE, 'Machine._switch_unit_mode')
     cfg = A.cfg(sw)
+    # names: the new mode is the parameter, the old mode the local taken
+    # from the unit_mode register
+    TO = sw.params[1]
+    frm = [norm(n.targets[0]) for n in walk_own(sw.node)
+           if isinstance(n, ast.Assign) and norm(n.value) == 'self._reg.unit_mode'
+           and isinstance(n.targets[0], ast.Name)]
+    if len(frm) != 1:
+        raise AnalysisError('_switch_unit_mode: old-mode local not found')
+    FROM = frm[0]
+
+    def eqs(a, b):
+        return ('%s is %s' % (a, b), '%s is %s' % (b, a),
+                '%s == %s' % (a, b), '%s == %s' % (b, a))
     same = [n for n in cfg.nodes if n.kind == 'cond'
-            and norm(n.ast) in ('from_mode is to_mode', 'to_mode is from_mode',
-                                'from_mode == to_mode', 'to_mode == from_mode')]
+            and norm(n.ast) in eqs(FROM, TO)]
     stores = [n for n in cfg.nodes if n.kind == 'stmt' and (
         isinstance(n.ast, ast.Assign) and norm(n.ast.targets[0]).startswith('self._reg.')
         or any('store_color' in norm(c.func) for c in n.calls()))]
@@ -140,7 +152,7 @@ def r14b(R):
     ok = bool(get and mode and store) and \
         cfg.find_path([cfg.entry], lambda n: n in mode, avoid=get) is None and \
         cfg.find_path([cfg.entry], lambda n: n in store, avoid=mode) is None and \
-        norm(mode[0].ast.value) == 'to_mode'
+        norm(mode[0].ast.value) == TO
     R.check(sw, 'get_color() [old mode] < unit_mode = to_mode < store_color()',
             ok, 'the colour is read after the mode changed (wrong register '
             'triple) or stored before it')
@@ -150,15 +162,15 @@ def r14b(R):
     for n in conv:
         for c in n.calls():
             if 'Machine._convert_units_fn' in A.callee_names(sw, c):
-                okc = [norm(a) for a in c.args] == ['from_mode', 'to_mode']
+                okc = [norm(a) for a in c.args] == [FROM, TO]
     R.check(sw, 'converter chosen for (from_mode, to_mode)', okc,
             'the colour converter is chosen for the wrong pair of modes')
     # time and duration
     want = {True: 'units.time_raw', False: 'units.time_logical'}
-    for test_text, toward_raw in (('to_mode is UnitMode.RAW', True),
-                                  ('from_mode is UnitMode.RAW', False)):
+    for who, toward_raw in ((TO, True), (FROM, False)):
+        test_text = '%s is UnitMode.RAW' % who
         t = [n for n in cfg.nodes if n.kind == 'cond' and norm(n.ast) in
-             (test_text, test_text.replace(' is ', ' == '))]
+             eqs(who, 'UnitMode.RAW')]
         regs = {}
         if t:
             branch = cfg.reachable_from([m for m, lab in t[0].succs if lab is True],
@@ -176,10 +188,7 @@ def r14b(R):
                 ok, 'when %s the time and duration registers must both be '
                 'rewritten with %s (found %s)' % (test_text, want[toward_raw], regs))
     # the time/duration rewrite depends on nothing but the two raw tests
-    allowed_conds = ('from_mode is to_mode', 'to_mode is from_mode',
-                     'from_mode == to_mode', 'to_mode == from_mode',
-                     'to_mode is UnitMode.RAW', 'to_mode == UnitMode.RAW',
-                     'from_mode is UnitMode.RAW', 'from_mode == UnitMode.RAW')
+    allowed_conds = eqs(FROM, TO) + eqs(TO, 'UnitMode.RAW') + eqs(FROM, 'UnitMode.RAW')
     tstores = [n for n in cfg.nodes if n.kind == 'stmt' and isinstance(n.ast, ast.Assign)
                and norm(n.ast.targets[0]) in ('self._reg.duration', 'self._reg.time')]
     extra = set()
